@@ -38,4 +38,45 @@ example : (⟨[3, 1, 2], 1⟩ : Fixed Nat).Inv ∧ (⟨[3, 1, 2], 1⟩ : Fixed N
 
 
 
+
+/-! ## RMS channel over the concrete `Fixed` state -/
+section rmsSim
+open Dasp.Rms Dasp.Arith
+
+variable {β : Type} [Arith β] [Inhabited β]
+
+/-- one channel of the detector with the ring buffer as `Fixed` raw parts `(data, first)` -/
+structure ChanF (β : Type) where
+  f : Fixed β
+  sum : β
+
+def ChanF.abs (c : ChanF β) : Chan β := ⟨c.f.abs, c.sum⟩
+
+/-- `Rms::next_squared` (lib.rs:137-158), one channel, calling `Fixed::push` where the code does -/
+def ChanF.nextSquared (c : ChanF β) (s : β) : ChanF β × β :=
+  let sq := mul s s
+  let r := c.f.push sq
+  let diff := sub (add c.sum sq) r.2
+  let sum := if lt diff zero then zero else diff
+  (⟨r.1, sum⟩, div sum (ofLen r.1.len))
+
+/-- **C11/C19 over the real ring-buffer state**: for every valid `Fixed` state (any `first`), one
+    `next_squared` step on the concrete state yields the same output and commutes with the
+    abstraction to the window-as-list model that `Props/C11.lean` reasons about -/
+theorem chanF_nextSquared_sim (c : ChanF β) (h : c.f.Inv) (s : β) :
+    (ChanF.nextSquared c s).2 = (Chan.nextSquared c.abs s).2 ∧
+    (ChanF.nextSquared c s).1.abs = (Chan.nextSquared c.abs s).1 ∧ (ChanF.nextSquared c s).1.f.Inv := by
+  obtain ⟨h1, h2, h3, h4⟩ := fixed_is_delay_line c.f h (mul s s)
+  have hhead : c.f.abs.headD zero = (c.f.push (mul s s)).2 := by
+    cases hb : c.f.abs with
+    | nil => rw [hb] at h2; simp at h2
+    | cons a t => rw [hb] at h2; simp at h2; simp [h2]
+  have hlen : (c.f.push (mul s s)).1.len = (c.f.abs.drop 1 ++ [mul s s]).length := by
+    rw [← h1]; exact (Dasp.Props.C06.Fixed.abs_length _).symm
+  refine ⟨?_, ?_, h3⟩
+  · simp only [ChanF.nextSquared, Chan.nextSquared, Chan.calcSquared, ChanF.abs, hhead, hlen]
+  · simp only [ChanF.nextSquared, Chan.nextSquared, ChanF.abs, hhead, h1]
+
+end rmsSim
+
 end Dasp.Props.LinkRms
